@@ -351,6 +351,8 @@ fn layouts_of(set: &[Upd]) -> Vec<Layout> {
 // ---------------------------------------------------------------------------------------------
 
 struct Race {
+    /// for a failed recovery / lost flush: which object is missing or unlisted, and whose it was
+    cause: String,
     fold_after: Result<Fold, String>,
     flush_ok: bool,
     compact_outcome: String,
@@ -395,7 +397,48 @@ fn race_once(layout: &Layout, flushed: &[Upd], ch: &mut Chooser) -> Race {
             };
             let flush_ok = flush_res.borrow().unwrap_or(false);
             let compact_outcome = comp_res.borrow().clone();
-            Race { fold_after, flush_ok, compact_outcome, ops }
+            // cause: what does the final manifest reference that is not in the store, and whose object was it?
+            let cause = {
+                let img = store.image_now();
+                let initial: BTreeSet<String> = build_store(layout).image_now().keys().cloned().collect();
+                let flushed_keys: BTreeSet<String> = flushed.iter().map(|u| u.key_name()).collect();
+                let owner_of = |key: &str| -> &'static str {
+                    if initial.contains(key) {
+                        return "compaction-input";
+                    }
+                    // the last put of that key: a segment holding only flushed keys is the flush's output
+                    match store.log().iter().rev().find(|o| o.kind == "put" && o.key == key) {
+                        Some(o) => match redis_sim::streaming::segment::SegmentReader::open(&o.put_bytes).ok().and_then(|r| r.read_all().ok()) {
+                            Some(ds) if !ds.is_empty() && ds.iter().all(|d| flushed_keys.contains(&d.key)) => "flush-output",
+                            Some(_) => "compaction-output",
+                            None => "unreadable-put",
+                        },
+                        None => "never-written",
+                    }
+                };
+                match block_on(ManifestManager::new(store.clone(), PREFIX).load()) {
+                    Err(_) => "manifest-unreadable".to_string(),
+                    Ok(m) => {
+                        let mut missing: BTreeSet<&'static str> = BTreeSet::new();
+                        for sref in &m.segments {
+                            if !img.contains_key(&sref.key) {
+                                missing.insert(owner_of(&sref.key));
+                            }
+                        }
+                        // objects in the store that hold flushed keys but are not listed
+                        let listed: BTreeSet<&String> = m.segments.iter().map(|s| &s.key).collect();
+                        let unlisted_flush = img.keys().any(|k| k.contains("segment") && !listed.contains(k) && owner_of(k) == "flush-output");
+                        if !missing.is_empty() {
+                            format!("missing={}", missing.into_iter().collect::<Vec<_>>().join("+"))
+                        } else if unlisted_flush {
+                            "flush-output-not-listed".to_string()
+                        } else {
+                            "other".to_string()
+                        }
+                    }
+                }
+            };
+            Race { cause, fold_after, flush_ok, compact_outcome, ops }
         })
     })
 }
@@ -571,7 +614,9 @@ fn main() {
             let replay = json!({"race": true, "layout": layout_json(layout), "flushed": layout_json(&Layout { checkpoint: None, segments: vec![flushed.clone()] })["segments"][0], "schedule": ch.schedule()});
             let ctx = format!("layout {} ; concurrent flush of [{}] ; store ops in order: {:?} ; flush ok={} ; compaction: {}", layout.show(), flushed.iter().map(|u| u.show()).collect::<Vec<_>>().join(" "), race.ops, race.flush_ok, race.compact_outcome);
             match &race.fold_after {
-                Err(e) => rep.violation("race: recovery-error-after-compaction||flush", format!("{e}; {ctx}"), replay),
+                // the listed finding of this name is the one whose missing object is an INPUT of the compaction (the flush's
+                // manifest snapshot still lists it); anything else that is missing keeps its own name
+                Err(e) => rep.violation(if race.cause == "missing=compaction-input" { "race: recovery-error-after-compaction||flush".to_string() } else { format!("race: recovery-error-after-compaction||flush {}", race.cause) }, format!("{e}; cause {}; {ctx}", race.cause), replay),
                 Ok(f) => {
                     let want = if race.flush_ok { &expected_with_flush } else { &before };
                     let (pw, pf) = (projection(want), projection(f));
@@ -581,7 +626,13 @@ fn main() {
                     if !lost.is_empty() && race.flush_ok {
                         let flushed_keys: BTreeSet<String> = flushed.iter().map(|u| u.key_name()).collect();
                         let kind = if lost.iter().all(|l| flushed_keys.contains(*l)) { "confirmed-flush-lost" } else { "compacted-data-lost" };
-                        rep.violation(format!("race: {kind}"), format!("keys {:?}: expected {:?} recovered {:?}; {ctx}", lost, pw, pf), replay);
+                        // listed: the flush's segment exists but compaction's manifest (derived from its initial snapshot)
+                        // does not list it / both allocated the same id and one object overwrote the other
+                        let refined = match (kind, race.cause.as_str()) {
+                            ("confirmed-flush-lost", "flush-output-not-listed") | ("confirmed-flush-lost", "other") | ("compacted-data-lost", _) => format!("race: {kind}"),
+                            (k, c) => format!("race: {k} {c}"),
+                        };
+                        rep.violation(refined, format!("keys {:?}: expected {:?} recovered {:?}; cause {}; {ctx}", lost, pw, pf, race.cause), replay);
                     } else if !race.flush_ok {
                         let pb = projection(&before);
                         let lost_old: Vec<&String> = pb.keys().filter(|key| !flushed.iter().any(|u| &u.key_name() == *key) && pf.get(*key) != pb.get(*key)).collect();
